@@ -1,8 +1,138 @@
 import PyPhysim.Model.Proto
-open PyPhysim.Proto
+import PyPhysim.Model.C13
+open PyPhysim.Proto PyPhysim.C13
 
--- stub: replaced when the C13 model is written
+/-! Line-protocol driver of the C13 model at `α = Float`.
+
+`<kind> <ctor args…> <op>…` → one reply token per op, space separated.
+floats are `f<bits>`; arrays are comma separated; errors are `error:<PyErr>`.
+
+kinds: `gen <n> <C>` · `gpp` · `fs <n> <fc>` · `ps7 <fc>` · `oh` · `ant <sectors>`
+ops  : `small:0|1` `n:<f>` `fc:<f>` `hbs:<f>` `hms:<f>` `area:<name, ~ for space>`  (setters → `ok` / `error:…`)
+       `db:<f>` `dba:<f,…>` `lin:<f>` `lina:<f,…>` `wdb:<f>` `wdba:<f,…>` `wl:<f>` `wla:<f,…>`
+       ps7 queries carry the wall count: `wdb:<nw>:<f>` `wdba:<nw>:<f,…>` `wl:<nw>:<f>` `db:<nw>:<f>` `dba:<nw>:<f,…>` `dbw:<nw,…>:<f,…>` `lin:<nw>:<f>`
+       `g:<f>` `ga:<f,…>` (antenna)
+-/
+
+instance : NatCast Float := ⟨Float.ofNat⟩
+instance : Transc Float := ⟨Float.log10, fun x => Float.pow 10.0 x⟩
+
+def showR : Except PyErr Float → String
+  | .ok x => showFloat x
+  | .error e => "error:" ++ toString e
+
+def showRA : Except PyErr (List Float) → String
+  | .ok l => showList showFloat l
+  | .error e => "error:" ++ toString e
+
+def splitOp (t : String) : List String := t.splitOn ":"
+
+def pf (s : String) : Option Float := parseFloat? s
+def pfl (s : String) : Option (List Float) := parseFloatList? s
+
+/-- queries common to the `GenState` family -/
+def genQuery (s : GenState Float) : List String → Option String
+  | ["db", x] => (pf x).map (fun d => showR (s.dbScalar d))
+  | ["dba", x] => (pfl x).map (fun d => showRA (s.dbArray d))
+  | ["lin", x] => (pf x).map (fun d => showR (s.linScalar d))
+  | ["lina", x] => (pfl x).map (fun d => showRA (s.linArray d))
+  | ["wdb", x] => (pf x).map (fun p => showR (s.whichDbScalar p))
+  | ["wdba", x] => (pfl x).map (fun p => showList showFloat (s.whichDbArray p))
+  | ["wl", x] => (pf x).map (fun p => showFloat (s.whichLin p))
+  | ["wla", x] => (pfl x).map (fun p => showList showFloat (s.whichLinArray p))
+  | _ => none
+
+def bool? : String → Option Bool
+  | "0" => some false | "1" => some true | _ => none
+
+/-- `setters = true` for PathLossFreeSpace (n / fc properties exist) -/
+def runGen (setters : Bool) : GenState Float → List String → List String → String
+  | _, [], acc => " ".intercalate acc.reverse
+  | s, t :: ts, acc =>
+    match splitOp t with
+    | ["small", b] => match bool? b with
+        | some b => runGen setters (fsStep s (.setSmall b)) ts ("ok" :: acc) | none => "bad-op"
+    | ["n", x] => match setters, pf x with
+        | true, some v => runGen setters (fsStep s (.setN v)) ts ("ok" :: acc) | _, _ => "bad-op"
+    | ["fc", x] => match setters, pf x with
+        | true, some v => runGen setters (fsStep s (.setFc v)) ts ("ok" :: acc) | _, _ => "bad-op"
+    | q => match genQuery s q with
+        | some r => runGen setters s ts (r :: acc) | none => "bad-op"
+
+def runPs7 : Ps7State Float → List String → List String → String
+  | _, [], acc => " ".intercalate acc.reverse
+  | s, t :: ts, acc =>
+    match splitOp t with
+    | ["small", b] => match bool? b with
+        | some b => runPs7 (ps7Step s (.setSmall b)) ts ("ok" :: acc) | none => "bad-op"
+    | ["fc", x] => match pf x with
+        | some v => runPs7 (ps7Step s (.setFc v)) ts ("ok" :: acc) | none => "bad-op"
+    | ["db", w, x] => match w.toInt?, pf x with
+        | some w, some d => runPs7 s ts (showR (s.dbScalar w d) :: acc) | _, _ => "bad-op"
+    | ["lin", w, x] => match w.toInt?, pf x with
+        | some w, some d => runPs7 s ts (showR (s.linScalar w d) :: acc) | _, _ => "bad-op"
+    | ["dba", w, x] => match w.toInt?, pfl x with
+        | some w, some d => runPs7 s ts (showRA (s.dbArray w d) :: acc) | _, _ => "bad-op"
+    | ["wdb", w, x] => match w.toInt?, pf x with
+        | some w, some p => runPs7 s ts (showR (s.whichDb w p) :: acc) | _, _ => "bad-op"
+    | ["wdba", w, x] => match w.toInt?, pfl x with
+        | some w, some p => runPs7 s ts (showRA (s.whichDbArray w p) :: acc) | _, _ => "bad-op"
+    | ["wl", w, x] => match w.toInt?, pf x with
+        | some w, some p => runPs7 s ts (showR (s.whichLin w p) :: acc) | _, _ => "bad-op"
+    | ["dbw", w, x] => match parseNatList? w, pfl x with
+        | some w, some d => runPs7 s ts (showRA (s.dbArrayWalls w d) :: acc) | _, _ => "bad-op"
+    | _ => "bad-op"
+
+def showSet : Option PyErr → String
+  | none => "ok"
+  | some e => "error:" ++ toString e
+
+def runOh : OhState Float → List String → List String → String
+  | _, [], acc => " ".intercalate acc.reverse
+  | s, t :: ts, acc =>
+    let set (o : OhOp Float) := let r := ohStep s o; runOh r.1 ts (showSet r.2 :: acc)
+    match splitOp t with
+    | ["small", b] => match bool? b with | some b => set (.setSmall b) | none => "bad-op"
+    | ["fc", x] => match pf x with | some v => set (.setFc v) | none => "bad-op"
+    | ["hbs", x] => match pf x with | some v => set (.setHbs v) | none => "bad-op"
+    | ["hms", x] => match pf x with | some v => set (.setHms v) | none => "bad-op"
+    | ["area", a] => set (.setArea (a.replace "~" " "))
+    | ["db", x] => match pf x with
+        | some d => runOh s ts (showR (s.dbScalar d) :: acc) | none => "bad-op"
+    | ["lin", x] => match pf x with
+        | some d => runOh s ts (showR (s.linScalar d) :: acc) | none => "bad-op"
+    | ["dba", x] => match pfl x with
+        | some d => runOh s ts (showRA (s.dbArray d) :: acc) | none => "bad-op"
+    | ["wdb", x] => match pf x with
+        | some p => runOh s ts (showR (s.whichDb p) :: acc) | none => "bad-op"
+    | _ => "bad-op"
+
+def runAnt (a : Ant Float) : List String → List String → String
+  | [], acc => " ".intercalate acc.reverse
+  | t :: ts, acc =>
+    match splitOp t with
+    | ["g", x] => match pf x with
+        | some v => runAnt a ts (showFloat (a.gain v) :: acc) | none => "bad-op"
+    | ["ga", x] => match pfl x with
+        | some v => runAnt a ts (showList showFloat (v.map a.gain) :: acc) | none => "bad-op"
+    | _ => "bad-op"
+
 def handle : List String → String
+  | "gen" :: n :: c :: ops => match pf n, pf c with
+      | some n, some c => runGen false (generalInit n c) ops [] | _, _ => "bad-op"
+  | "gpp" :: ops => runGen false gpp1Init ops []
+  | "fs" :: n :: fc :: ops => match pf n, pf fc with
+      | some n, some fc => runGen true (fsInit n fc) ops [] | _, _ => "bad-op"
+  | "fsdefault" :: ops => runGen true (fsInit PyPhysim.C13.Gen.fsDefaultN PyPhysim.C13.Gen.fsDefaultFc) ops []
+  | "ps7" :: fc :: ops => match pf fc with
+      | some fc => runPs7 (ps7Init fc) ops [] | none => "bad-op"
+  | "ps7default" :: ops => runPs7 (ps7Init PyPhysim.C13.Gen.ps7DefaultFc) ops []
+  | "oh" :: ops => runOh ohInit ops []
+  | "ant" :: k :: ops => match k.toNat? with
+      | some k => match (antNew k : Except PyErr (Ant Float)) with
+          | .ok a => runAnt a ops []
+          | .error e => "error:" ++ toString e
+      | none => "bad-op"
   | _ => "bad-op"
 
 def main : IO Unit := runDriver handle
